@@ -167,6 +167,21 @@ def length_limited_trees(rng, n):
     return out
 
 
+def extreme_scaled_trees(rng, n):
+    """n scaled types (at the root or in an array) at the ends of the float range: limits at +-max (their grid value may
+    overflow - then every value is refused), limits / scale beyond the float range, a huge scale, the smallest scale"""
+    cat = [(7.0, -FMAX, 0.0), (3.0, 0.0, FMAX), (0.1, -FMAX, FMAX), (1e-3, -1e300, 1e300), (1e300, -FMAX, FMAX),
+           (1e300, 0.0, 1e301), (5e-324, 0.0, 5e-323), (5e-324, -1.0, 1.0), (1e-5, 0.0, 1e304), (2.0 ** 970, -FMAX, FMAX),
+           (0.25, -2.0 ** 1022, 2.0 ** 1022), (1.0, -FMAX, FMAX)]
+    out = []
+    for _ in range(n):
+        scale, lo, hi = rng.choice(cat)
+        leaf = {'t': 'scaled', 'scale': fj(scale), 'min': fj(lo), 'max': fj(hi), 'ar': fj(rng.choice([scale, 0.0])),
+                'rr': fj(rng.choice([1.2e-7, 0.0]))}
+        out.append(leaf if rng.random() < 0.7 else {'t': 'array', 'elem': leaf, 'min': 0, 'max': 2})
+    return out
+
+
 # ---------------------------------------------------------------------------------------------
 # valid values (Python side, canonical form: what validation returns)
 # ---------------------------------------------------------------------------------------------
@@ -233,7 +248,11 @@ def gen_valid(rng, tree):
         if klo <= 0 <= khi:
             cands.append(0)
         k = rng.choice(cands)
-        return float(k * _f(tree['scale']))
+        try:
+            x = float(k * _f(tree['scale']))
+        except OverflowError:
+            return None
+        return x if math.isfinite(x) else None
     if t == 'bool':
         return rng.random() < 0.5
     if t == 'enum':
